@@ -89,3 +89,8 @@ class Engine:
                 f.close()
             except Exception:
                 pass
+        # `setoption name DebugLogLevel value Info` makes the engine write a log into its working directory
+        try:
+            os.remove("/tmp/walleye_%d.log" % self.p.pid)
+        except OSError:
+            pass
